@@ -266,16 +266,16 @@ Proof.
   intros n' a' [HP HS]. split; [lia|exact HS].
 Qed.
 
-Lemma spec_emplace_at a c n pos x :
-  cshape a c n -> n <= cap -> a (Temp 0) = false -> a (Temp 1) = false ->
-  triple a (emplace_at fl cap c n pos x) (cpost c a (fun n' => n' = S n /\ n' <= cap)).
+Lemma spec_emplace_at_h a c n pos h :
+  cshape a c n -> n <= cap -> a (Temp 0) = false -> a (Temp 1) = false -> bsrc_ok a h = true ->
+  triple a (emplace_at_h fl cap c n pos h) (cpost c a (fun n' => n' = S n /\ n' <= cap)).
 Proof.
-  intros Hc Hle Ht0 Ht1. unfold emplace_at.
+  intros Hc Hle Ht0 Ht1 Hh. unfold emplace_at_h.
   eapply triple_bind; [apply triple_require'|]. intros [] ? [Hb1 ->].
   eapply triple_bind; [apply triple_require'|]. intros [] ? [Hb2 ->].
   eapply triple_bind.
   { eapply triple_emit_legal with (Q := fun _ a2 => same a2 (fupd a (Temp 1) true)).
-    - apply legal_construct; [exact Ht1|reflexivity].
+    - apply legal_construct; [exact Ht1|exact Hh].
     - intros a2 H2. exact H2. }
   intros [] a1 H1.
   eapply triple_bind.
@@ -290,6 +290,11 @@ Proof.
   intros l. destruct l as [c' i|k|k]; pw_rewrite; cbn [loc_eqb]; try lia.
   destruct (Nat.eqb_spec 1 k) as [<-|]; [rewrite Ht1|]; lia.
 Qed.
+
+Lemma spec_emplace_at a c n pos x :
+  cshape a c n -> n <= cap -> a (Temp 0) = false -> a (Temp 1) = false ->
+  triple a (emplace_at fl cap c n pos x) (cpost c a (fun n' => n' = S n /\ n' <= cap)).
+Proof. intros Hc Hle Ht0 Ht1. unfold emplace_at. apply spec_emplace_at_h; auto. Qed.
 
 Lemma spec_clear a c n :
   cshape a c n -> triple a (clear c n) (cpost c a (fun n' => n' = 0)).
@@ -437,6 +442,94 @@ Proof.
   - intros n' a' [HP HS]. split; [lia|exact HS].
 Qed.
 
+(** * static_set / flat_set members *)
+Lemma spec_set_insert a c n vals x src :
+  cshape a c n -> n <= cap -> length vals = n -> a src = true -> a (Temp 0) = false ->
+  triple a (set_insert fl cap c n vals x src) (cpost c a (fun n' => n' <= cap)).
+Proof.
+  intros Hc Hle Hlen Hs Ht0. unfold set_insert.
+  pose proof (bsearch_le (fun v => (v <? x)%Z) vals) as Hp. fold (lower_idx vals x) in Hp. rewrite Hlen in Hp.
+  set (p := lower_idx vals x) in *.
+  destruct ((p <? n) && negb (x <? nth p vals 0%Z)%Z).
+  { apply triple_ret. split; [exact Hle|]. apply same_sym. apply reshape_id. exact Hc. }
+  destruct (Nat.eqb_spec n cap) as [E|N].
+  { apply triple_ret. split; [exact Hle|]. apply same_sym. apply reshape_id. exact Hc. }
+  eapply triple_conseq.
+  - apply spec_append_rotate with (k := 1); [exact Hc|exact Hp|exact Ht0|].
+    eapply triple_conseq; [apply spec_push_back; [exact Hc|exact Hle|rewrite bsrc_ok_mv; exact Hs]|].
+    intros n' a' [HP HS]. split; [lia|exact HS].
+  - intros n' a' [HP HS]. split; [lia|exact HS].
+Qed.
+
+(* { T tmp(...); insert(move(tmp)); } *)
+Lemma spec_set_insert_tmp a c n vals x h :
+  cshape a c n -> n <= cap -> length vals = n -> bsrc_ok a h = true -> a (Temp 0) = false -> a (Temp 1) = false ->
+  triple a (exe emit [Construct (Temp 1) h] ;
+            do n' <- set_insert fl cap c n vals x (Temp 1) ;
+            exe emit [Destroy (Temp 1)] ; ret n') (cpost c a (fun n' => n' <= cap)).
+Proof.
+  intros Hc Hle Hlen Hh Ht0 Ht1.
+  eapply triple_bind.
+  { eapply triple_emit_legal with (Q := fun _ a2 => same a2 (fupd a (Temp 1) true)).
+    - apply legal_construct; [exact Ht1|exact Hh].
+    - intros a2 H2. exact H2. }
+  intros [] a1 H1.
+  eapply triple_bind.
+  { apply spec_set_insert; [intros i; pw|exact Hle|exact Hlen|pw|pw]. }
+  intros n1 a2 [Hn1 H2].
+  eapply triple_bind.
+  { eapply triple_emit_legal with (Q := fun _ a3 => same a3 (fupd a2 (Temp 1) false)).
+    - apply legal_destroy. pw.
+    - intros a3 H3. exact H3. }
+  intros [] a3 H3. apply triple_ret. split; [exact Hn1|].
+  intros l. destruct l as [c' i|k|k]; pw_rewrite; cbn [loc_eqb]; try lia.
+  destruct (Nat.eqb_spec 1 k) as [<-|]; [rewrite Ht1|]; lia.
+Qed.
+
+Lemma spec_set_erase_key a c n vals x :
+  cshape a c n -> n <= cap ->
+  triple a (set_erase_key fl c n vals x) (cpost c a (fun n' => n' <= cap)).
+Proof.
+  intros Hc Hle. unfold set_erase_key.
+  destruct ((lower_idx vals x <? n) && negb (x <? nth (lower_idx vals x) vals 0%Z)%Z).
+  - eapply triple_conseq; [apply spec_erase_at; exact Hc|]. intros n' a' [HP HS]. split; [lia|exact HS].
+  - apply triple_ret. split; [exact Hle|]. apply same_sym. apply reshape_id. exact Hc.
+Qed.
+
+Lemma spec_flat_emplace a c n vals x h :
+  cshape a c n -> n <= cap -> bsrc_ok a h = true ->
+  a (Temp 0) = false -> a (Temp 1) = false -> a (Temp 2) = false ->
+  triple a (flat_emplace fl cap c n vals x h) (cpost c a (fun n' => n' <= cap)).
+Proof.
+  intros Hc Hle Hh Ht0 Ht1 Ht2. unfold flat_emplace.
+  eapply triple_bind.
+  { eapply triple_emit_legal with (Q := fun _ a2 => same a2 (fupd a (Temp 2) true)).
+    - apply legal_construct; [exact Ht2|exact Hh].
+    - intros a2 H2. exact H2. }
+  intros [] a1 H1.
+  eapply triple_bind with (Q := fun n1 a2 => n1 <= cap /\ same a2 (reshape a1 c n1)).
+  { destruct ((lower_idx vals x =? n) || (x <? nth (lower_idx vals x) vals 0%Z)%Z).
+    - eapply triple_conseq; [apply spec_emplace_at_h; [intros i; pw|exact Hle|pw|pw|rewrite bsrc_ok_mv; pw]|].
+      intros n' a' [HP HS]. split; [lia|exact HS].
+    - apply triple_ret. split; [exact Hle|]. apply same_sym. apply reshape_id. intros i; pw. }
+  intros n1 a2 [Hn1 H2].
+  eapply triple_bind.
+  { eapply triple_emit_legal with (Q := fun _ a3 => same a3 (fupd a2 (Temp 2) false)).
+    - apply legal_destroy. pw.
+    - intros a3 H3. exact H3. }
+  intros [] a3 H3. apply triple_ret. split; [exact Hn1|].
+  intros l. destruct l as [c' i|k|k]; pw_rewrite; cbn [loc_eqb]; try lia.
+  destruct (Nat.eqb_spec 2 k) as [<-|]; [rewrite Ht2|]; lia.
+Qed.
+
+Lemma spec_flat_erase_key a c n vals x :
+  cshape a c n -> n <= cap ->
+  triple a (flat_erase_key fl c n vals x) (cpost c a (fun n' => n' <= cap)).
+Proof.
+  intros Hc Hle. unfold flat_erase_key.
+  eapply triple_conseq; [apply spec_erase_range; exact Hc|]. intros n' a' [HP HS]. split; [lia|exact HS].
+Qed.
+
 (* the slots of another container as a source range *)
 Lemma slots_alive a o m s : cshape a o m -> In s (slots o m) -> a s = true.
 Proof.
@@ -545,6 +638,47 @@ Proof.
       + intros h Hh. apply in_map_iff in Hh. destruct Hh as [s [<- Hs']]. cbn. eapply slots_alive; eassumption.
     - intros a2 H2. exact H2. }
   intros [] a2 H2. rewrite map_length, slots_length in H2. apply triple_ret. split; [reflexivity|]. pwl l.
+Qed.
+
+Lemma spec_iv_copy_assign a c n o m :
+  cshape a c n -> cshape a o m -> o <> c ->
+  triple a (iv_copy_assign c n o m) (cpost c a (fun n' => n' = m)).
+Proof.
+  intros Hc Ho Hne. unfold iv_copy_assign.
+  eapply triple_bind; [apply spec_iv_clear; exact Hc|]. intros n0 a1 [-> H1].
+  eapply triple_bind.
+  { eapply triple_emit_legal with (Q := fun _ a2 => same a2 (fun l => a1 l || in_range c 0 (0 + length (map Copy (slots o m))) l)).
+    - apply legal_constructs.
+      + intros i Hi. pw.
+      + intros h Hh. apply in_map_iff in Hh. destruct Hh as [s [<- Hs']]. cbn.
+        pose proof (slots_alive a o m s Ho Hs') as Hal. pose proof (slots_outside o m c s Hne Hs') as Hout.
+        rewrite H1. destruct s as [c' i|k'|k']; cbn [reshape]; try exact Hal.
+        destruct (Nat.eqb_spec c' c) as [->|]; [exfalso; eapply Hout; reflexivity|]. rewrite Hal. lia.
+    - intros a2 H2. exact H2. }
+  intros [] a2 H2. rewrite map_length, slots_length in H2. apply triple_ret. split; [reflexivity|]. pwl l.
+Qed.
+
+Lemma spec_iv_move_assign a c n o m :
+  cshape a c n -> cshape a o m -> o <> c ->
+  triple a (iv_move_assign fl c n o m) (fun r a' => r = (m, 0) /\ same a' (reshape (reshape a c m) o 0)).
+Proof.
+  intros Hc Ho Hne. unfold iv_move_assign.
+  eapply triple_bind; [apply spec_iv_clear; exact Hc|]. intros n0 a1 [-> H1].
+  eapply triple_bind.
+  { eapply triple_emit_legal with (Q := fun _ a2 => same a2 (fun l => a1 l || in_range c 0 (0 + length (map (mv fl) (slots o m))) l)).
+    - apply legal_constructs.
+      + intros i Hi. pw.
+      + intros h Hh. apply in_map_iff in Hh. destruct Hh as [s [<- Hs']]. rewrite bsrc_ok_mv.
+        pose proof (slots_alive a o m s Ho Hs') as Hal. pose proof (slots_outside o m c s Hne Hs') as Hout.
+        rewrite H1. destruct s as [c' i|k'|k']; cbn [reshape]; try exact Hal.
+        destruct (Nat.eqb_spec c' c) as [->|]; [exfalso; eapply Hout; reflexivity|]. rewrite Hal. lia.
+    - intros a2 H2. exact H2. }
+  intros [] a2 H2. rewrite map_length, slots_length in H2.
+  eapply triple_bind.
+  { apply spec_iv_clear with (c := o) (n := m). intros i. rewrite H2, H1. unfold reshape, in_range.
+    assert (E : (o =? c) = false) by (apply Nat.eqb_neq; exact Hne). rewrite E, Ho. cbn [andb orb negb]. lia. }
+  intros m' a3 [-> H3]. apply triple_ret. split; [reflexivity|].
+  pwl l.
 Qed.
 
 Lemma spec_iv_move_construct_ctor a c o m :
